@@ -11,6 +11,15 @@ OUT_Y = 'src'     # outside producer bound to the never-carried binding y
 CMDLINE_METHODS = ('ref', 'output', 'loopref', 'loopoutput')   # the only methods FlowIR accepts inside command lines
 
 
+FILE_AT = {None: (0, 0, 0), 'binding': (1, 1, 0), 'usage': (0, 0, 1), 'loop+usage': (0, 1, 1), 'all': (1, 1, 1),
+           'loop': (0, 1, 0), 'orig': (1, 0, 0), 'orig+usage': (1, 0, 1)}   # file on (original binding, loopBinding, usage)
+
+
+def _files(b):
+    o, l, u = FILE_AT[b['file_at']]
+    return (b['file'] if o else None, b['file'] if l else None, b['file'] if u else None)
+
+
 def _args(refs):
     on_cmdline = [r for r in refs if r.rsplit(':', 1)[1] in CMDLINE_METHODS]
     return ' '.join(on_cmdline) if on_cmdline else 'hello'
@@ -36,6 +45,15 @@ def topologies(thorough):
     # the second component consumes the first one of THIS iteration and, through a loop-carried binding, of the LAST one
     yield ('carry-and-dep', [_comp(A, 0), _comp(B, 0, deps=[(0, 'rel', 'output', None)])], 1,
            [('first2second', 0, 1)], [1])
+    # the same component names in two loop stages: the identical text 'prep:output' means another producer in each stage
+    yield ('reuse-names', [_comp('prep', 0), _comp('work', 0, deps=[(0, 'rel', 'output', None)]),
+                           _comp('prep', 1, deps=[(1, 'abs', 'ref', None)]), _comp('work', 1, deps=[(2, 'rel', 'output', None)])], 3,
+           [('last2first', 3, 0), ('nocarry', None, 0)], [1, 3])
+    # a loop-carried input produced by a REPLICATED looped component and consumed by an aggregating one
+    yield ('rep-carried', [_comp(A, 0, replicate=2), _comp(B, 0, aggregate=True)], 1, [('rep2agg', 0, 1)], [])
+    # an original binding to a REPLICATED outside producer, consumed by an aggregating looped component
+    yield ('outside-rep', [_comp(A, 0, aggregate=True), _comp(B, 0, deps=[(0, 'rel', 'ref', None)])], 1,
+           [('nocarry', None, 0), ('last2first', 1, 0)], [], {OUT_X: 2})
     # 2 looped components over two loop stages
     yield ('chain-2stage', [_comp(A, 0), _comp(B, 1, deps=[(0, 'abs', 'ref', None)])], 1,
            [('nocarry', None, 0), ('self1', 1, 1), ('self0', 0, 0)], [1])
@@ -57,6 +75,10 @@ def topologies(thorough):
                             _comp('AB', 1, deps=[(1, 'abs', 'ref', None), (0, 'abs', 'ref', None)])], 2,
            [('last2first', 1, 0)], [2])
     if thorough:
+        yield ('reuse-names-3', [_comp('prep', 0), _comp('work', 0, deps=[(0, 'rel', 'ref', 'f.txt')]),
+                                 _comp('work', 1, deps=[(1, 'abs', 'output', None)]),
+                                 _comp('prep', 2), _comp('work', 2, deps=[(3, 'rel', 'ref', 'f.txt'), (2, 'abs', 'output', None)])], 4,
+               [('last2first', 4, 0), ('self0', 1, 1)], [4])
         yield ('names-digit', [_comp('2A', 0), _comp('A2x', 0, deps=[(0, 'rel', 'ref', None)])], 1,
                [('last2first', 1, 0)], [1])
         yield ('three-allstage1', [_comp(A, 1), _comp(B, 1, deps=[(0, 'rel', 'ref', None)]),
@@ -72,8 +94,19 @@ def binding_variants(thorough):
     return vs
 
 
+def file_placement_variants(thorough):
+    """More placements of the file name of a LOOP-CARRIED binding: on the loopBinding and (the same name) on the usage
+    while the original binding has none, everywhere, only on the loopBinding, only on the original binding, ..."""
+    vs = [('ref', 'f.txt', 'loop+usage'), ('output', 'f.txt', 'all'), ('ref', 'f.txt', 'loop'), ('output', 'f.txt', 'orig')]
+    if thorough:
+        vs += [('output', 'f.txt', 'loop+usage'), ('ref', 'f.txt', 'all'), ('output', 'f.txt', 'loop'), ('ref', 'f.txt', 'orig'),
+               ('ref', 'f.txt', 'orig+usage'), ('output', 'f.txt', 'orig+usage')]
+    return vs
+
+
 def build_shape(S, topo, carry, bvar, with_y, store, spell, reloads=()):
-    label, comps, cond, _carries, y_users = topo
+    label, comps, cond, _carries, y_users = topo[:5]
+    outside_rep = dict(topo[5]) if len(topo) > 5 else {}
     clabel, carried_from, user = carry
     comps = copy.deepcopy(comps)
     btype, bfile, bfile_at = bvar
@@ -95,7 +128,7 @@ def build_shape(S, topo, carry, bvar, with_y, store, spell, reloads=()):
         {'name': 'cons-same', 'stage': S + maxls, 'refs': [[plain[-1], 'link', None]]},
     ]
     return {'label': '%s/%s%s' % (label, clabel, '/reload' if reloads else ''), 'S': S, 'comps': comps,
-            'bindings': bindings, 'cond': cond, 'reloads': list(reloads),
+            'bindings': bindings, 'cond': cond, 'reloads': list(reloads), 'outside_replicate': outside_rep,
             'cond_file': 'f.txt' if (S + len(comps)) % 2 else None,
             'cond_spell': 'rel' if (cond_ls == 0 and spell == 'rel') else 'abs',
             'consumers': consumers, 'store': store}
@@ -113,11 +146,17 @@ def shapes(thorough):
             out.append(sh)
 
     bvs = binding_variants(thorough)
+    late = ('reuse-names', 'reuse-names-3', 'rep-carried', 'outside-rep')      # topologies added later: reduced product
+    placed = ('one', 'chain-same-rel', 'three') + (('chain-2stage', 'carry-and-dep', 'reuse-names', 'three-allstage1') if thorough else ())
     for topo in topologies(thorough):
         for carry in topo[3]:
             for S in (0, 1):
                 for bi, bvar in enumerate(bvs):
-                    if thorough:
+                    if topo[0] in late:
+                        if bi >= (4 if thorough else 2):
+                            continue
+                        ys, stores, spells = (bool(topo[4]) and bi % 2 == 1,), (True,), ('abs',)
+                    elif thorough:
                         ys = (False, True) if (topo[4] and bi in (0, 3)) else (bool(topo[4]) and bi % 2 == 1,)
                         stores = (True, False) if bi in (0, 2) else (True,)
                         spells = ('abs', 'rel') if (S == 0 and bi == 0) else (('rel',) if (S == 0 and bi == 1) else ('abs',))
@@ -129,6 +168,13 @@ def shapes(thorough):
                         for store in stores:
                             for spell in spells:
                                 add(build_shape(S, topo, carry, bvar, with_y, store, spell))
+                # more placements of the file name of a loop-carried binding
+                if carry[1] is not None and topo[0] in placed and (thorough or carry[0] != 'first'):
+                    for fi, fvar in enumerate(file_placement_variants(thorough)):
+                        if thorough or (fi + S) % 2 == 0:
+                            add(build_shape(S, topo, carry, fvar, False, True, 'abs'))
+                if topo[0] in late and not (thorough or topo[0] == 'reuse-names'):
+                    continue
                 # histories with restarts: the instance is loaded again after the listed iterations
                 if thorough:
                     plans = [(S, rl) for rl in ((1,), (9, 10), (11, 24))]
@@ -156,7 +202,7 @@ def _loop_parts(shape, dwfile='dowhile.yaml'):
         refs = []
         for bname in c['uses']:
             b = shape['bindings'][bname]
-            refs.append(_ref_text(None, bname, b['file'] if b['file_at'] == 'usage' else None, b['type'], relative=True))
+            refs.append(_ref_text(None, bname, _files(b)[2], b['type'], relative=True))
         for (pi, spelling, method, fil) in c['deps']:
             p = comps[pi]
             refs.append(_ref_text(p['ls'], p['name'], fil, method, relative=(spelling == 'rel' and p['ls'] == c['ls'])))
@@ -176,11 +222,10 @@ def _loop_parts(shape, dwfile='dowhile.yaml'):
     input_bindings, loop_bindings, bindings = {}, {}, {}
     for bname, b in shape['bindings'].items():
         input_bindings[bname] = {'type': b['type']}
-        fil = b['file'] if b['file_at'] == 'binding' else None
-        bindings[bname] = _ref_text(0, b['outside'], fil, b['type'], relative=(b['spell'] == 'rel' and S == 0))
+        bindings[bname] = _ref_text(0, b['outside'], _files(b)[0], b['type'], relative=(b['spell'] == 'rel' and S == 0))
         if b['carried_from'] is not None:
             p = comps[b['carried_from']]
-            loop_bindings[bname] = _ref_text(p['ls'], p['name'], fil, b['type'],
+            loop_bindings[bname] = _ref_text(p['ls'], p['name'], _files(b)[1], b['type'],
                                              relative=(b['spell'] == 'rel' and p['ls'] == 0))
     cond = comps[shape['cond']]
     dw = {'type': 'DoWhile', 'inputBindings': input_bindings,
@@ -202,15 +247,20 @@ def _loop_parts(shape, dwfile='dowhile.yaml'):
     return outside, importer, consumers, dw
 
 
-def _outside_component(n):
-    return {'stage': 0, 'name': n, 'command': {'executable': 'echo', 'arguments': n}}
+def _outside_component(n, replicate=0):
+    c = {'stage': 0, 'name': n, 'command': {'executable': 'echo', 'arguments': n}}
+    if replicate:
+        c['workflowAttributes'] = {'replicate': replicate}
+    return c
 
 
 def to_documents(shape):
     """-> (main FlowIR dict, {file name under conf/: DoWhile dict}) for single- and multi-loop shapes."""
     if 'loops' not in shape:
         outside, importer, consumers, dw = _loop_parts(shape)
-        return {'components': [_outside_component(n) for n in outside] + [importer] + consumers}, {'dowhile.yaml': dw}
+        orep = shape.get('outside_replicate') or {}
+        return ({'components': [_outside_component(n, orep.get(n, 0)) for n in outside] + [importer] + consumers},
+                {'dowhile.yaml': dw})
     parts = [_loop_parts(loop, 'dw%d.yaml' % j) for j, loop in enumerate(shape['loops'])]
     outside = sorted({n for p in parts for n in p[0]})
     comps = [_outside_component(n) for n in outside]
